@@ -138,6 +138,11 @@ void l_copy_move_assign(void)
   struct DW *c = VP_NEW(struct DW); DW_COPY(c, dw);
   struct DW *m = VP_NEW(struct DW); DW_MOVE(m, dw);
   __CPROVER_assert(c->trompeloeil_lifetime_monitor.p == 0, "[C13] POST copy.does_not_inherit_the_requirement");
+  struct DW *cc = VP_NEW(struct DW); DW_COPY_CONST(cc, dw);        /* copy from a const lvalue: the implicit copy constructor */
+  __CPROVER_assert(cc->trompeloeil_lifetime_monitor.p == 0, "[C13] POST copy_from_const.does_not_inherit_the_requirement");
+  DW_DTOR(cc); free(cc);
+  __CPROVER_assert(vp_rep_n == 1 && !LM_IS_SATISFIED(mon), "[C13] POST copy_from_const.the_death_of_the_copy_is_unexpected_and_does_not_satisfy_the_original_s_requirement");
+  vp_rep_n = 0;
   __CPROVER_assert(m->trompeloeil_lifetime_monitor.p == 0, "[C13] POST move.does_not_inherit_the_requirement");
   __CPROVER_assert(dw->trompeloeil_lifetime_monitor.p == mon, "[C13] POST copy_move.original_keeps_its_requirement");
   struct DW *o = VP_NEW(struct DW); DW_CTOR(o);
